@@ -336,7 +336,8 @@ def write_evidence(pid, tier, seed, coverage, assumptions, wall, violations):
     if ORACLE_CHECKS["idna_sane"] or ORACLE_CHECKS["idna_roundtrip"]:
         coverage["oracle_assumptions_checked"] = {
             "IdnaSaneAt": ORACLE_CHECKS["idna_sane"], "IdnaRoundTripAt": ORACLE_CHECKS["idna_roundtrip"],
-            "failures": ORACLE_CHECKS["failures"][:20], "failure_count": len(ORACLE_CHECKS["failures"])}
+            "outside_domain": ORACLE_CHECKS["failures"][:12], "outside_domain_count": len(ORACLE_CHECKS["failures"]),
+            "note": "answers outside the assumption are outside the per-host Idn theorems only; the model/implementation comparison still covers them"}
     ev = {
         "property_id": pid,
         "tier": tier,
@@ -408,8 +409,10 @@ def oracle_value(fn, arg):
 #   IdnaAnswerSane a   : a is non-empty reg-name text (RFC 3986 unreserved / sub-delims without upper-case letters, or
 #                        '%' + two lower-case hex digits)          [written from the RFC, not from yarl's NOT_REG_NAME]
 #   IdnaRoundTripAt a  : an ASCII decoding of a is a itself; a non-ASCII decoding d encodes back to a
-# Every answer the real libraries give during a run is checked; failures are reported in the evidence (they limit the
-# domain of the Idn theorems, they are not violations of yarl by themselves).
+# Every answer the real libraries give during a run is checked and the outcome is recorded in the evidence.  An answer
+# that is NOT sane (e.g. the stdlib codec maps U+FF0F to '/') only limits the DOMAIN of the Idn theorems, which are stated
+# per host: yarl screens such answers itself (NOT_REG_NAME after IDNA for with_host / build(host=), the NFKC screen for
+# the constructor / build(authority=)), the model has the same screens, and the differential run compares the two.
 _SANE = re.compile(r"(?:[a-z0-9\-._~!$&'()*+,;=]|%[0-9a-f]{2})+\Z")
 ORACLE_CHECKS = {"idna_sane": 0, "idna_roundtrip": 0, "failures": []}
 
@@ -423,7 +426,7 @@ def _idna_encode_like_yarl(host):
 
 
 def check_oracle_assumption(fn, arg, val):
-    if val == "!":
+    if val == "!" or not fn.startswith("idna"):
         return
     try:
         a = dec(val)
